@@ -18,4 +18,11 @@ TEXT = {
         "technique": "Lean 4 theorems (structural induction + decide over regenerated tables) + model-equality correspondence",
     },
 }
+TEXT["C11"] = {
+    "level": "Kernel-checked: each of the ~50 hand-specialised Tableau prepend/transposed-append routines and both generic scatter paths equals the gate's documented table (3 widths, regenerated each run); "
+             "documented tables = conjugation by the documented unitaries; inverse ids invert; group laws (homomorphism, composition, associativity, inverses) exhaustively for all 24 one-qubit Cliffords. "
+             "Correspondence: model-equality for then/apply/pow/sum/scatter/circuit_to_tableau and oracle checks (verified checkers) for inverse, synthesis methods and stabilizers_to_tableau.",
+    "note": COMMON_NOTE + "General-size group laws are validated by correspondence only (partial); unitary-matrix and state-vector conversions not yet covered.",
+    "technique": "Lean 4 theorems (decide over regenerated tables, exhaustive one-qubit group laws) + oracle/equality correspondence",
+}
 NOT_CLAIMED = {}
